@@ -21,200 +21,74 @@ def branch_of(fa: FuncAnalysis, n: Node) -> Optional[str]:
     return None
 
 
+CLAUSES = {
+    # clause: (rule, construct, title, necessity)
+    "|:threaded": ("R09a", "`|` branch converts a threaded value", "`|`: every attempt converts the original input",
+                   "whether a later argument accepts then depends on what an earlier argument turned the input into"),
+    "^:threaded": ("R09a", "`^` branch converts a threaded value", "`^`: every argument is tested on the original input",
+                   "(int ^ R)('3.0') and (R ^ int)('3.0') give different verdicts"),
+    "~:threaded": ("R09a", "`~` branch converts a threaded value", "`~`: the argument is tested on the original input",
+                   "the value handed back / tested next is what an argument turned the input into"),
+    "&:first": ("R09a", "`&` branch does not thread", "`&`: the first argument converts the input", ""),
+    "&:second": ("R09a", "`&` branch does not thread", "`&`: every argument is applied", "conjunction must apply each argument"),
+    "&:thread": ("R09a", "`&` branch does not thread", "`&`: each argument converts the running value",
+                 "conjunction must apply each argument to the running value"),
+    "&:stop": ("R09a", "`&` branch continues after a rejection", "`&`: conversion stops at the first rejecting argument", ""),
+    "&:result": ("R09b", "`&` branch result", "`&`: the result is the last argument's conversion", ""),
+    "|:exact": ("R09b", "`|` branch exact-type shortcut", "`|`: a value of exactly one of the argument types is returned unchanged",
+                "a value that already has exactly one of the argument types must be returned unchanged"),
+    "|:exact-first": ("R09b", "`|` branch exact-type shortcut", "`|`: the exact-type test precedes every conversion",
+                      "a value that already has exactly one of the argument types must be returned unchanged"),
+    "^:exact": ("R09b", "`^` branch exact-type shortcut", "`^`: a value of exactly one of the argument types is returned unchanged", ""),
+    "|:result": ("R09b", "`|` branch early return", "`|`: the result is the conversion of the input by an accepting argument",
+                 "a value no argument accepted (or a half-converted value) is handed back"),
+    "^:one-result": ("R09b", "`^` branch reassigns the subject", "`^`: the result is the conversion by the single accepting argument",
+                     "a union / exclusive-or must return the conversion of the *original* input by an accepting argument"),
+    "~:rejects": ("R09b", "`~` branch reassigns the subject", "`~`: a value the argument rejects is returned unchanged",
+                  "negation must return the input unchanged"),
+    "|:all-fail": ("R09c", "`|` branch handler", "`|`: rejected when no argument accepts",
+                   "if every argument fails nothing would be raised: the raw input is returned"),
+    "|:all-fail-kind": ("R09c", "`|` branch handler", "`|`: the rejection carries the arguments' errors", ""),
+    "|:accept": ("R09c", "`|` branch rejects an accepted value", "`|`: accepted when some argument accepts",
+                 "the union rejects values one of its arguments accepts"),
+    "|:clear": ("R09c", "`|` success without clear_tmp_error", "`|`: temporary errors of earlier arguments are cleared on success",
+                "the errors of the arguments that did not accept are raised later although the union accepted"),
+    "^:one": ("R09c", "`^` branch rejects a single acceptance", "`^`: accepted when exactly one argument accepts", ""),
+    "^:clear": ("R09c", "`^` success without clear_tmp_error", "`^`: temporary errors are cleared on success", ""),
+    "^:none": ("R09c", "`^` branch handler", "`^`: rejected when no argument accepts",
+               "if every argument fails nothing would be raised: the raw input is returned"),
+    "^:all-tested": ("R09c", "`^` branch returns inside the conversion loop", "`^`: every argument is tested (no early exit on the "
+                     "accepting path)", "an input accepted by two arguments is accepted (with the first one's result) instead "
+                     "of being rejected"),
+    "^:many": ("R09c", "`^` branch lacks OneOfViolatedError", "`^`: rejected when more than one argument accepts",
+               "exclusive-or would accept inputs that several arguments accept"),
+    "^:many-kind": ("R09c", "`^` violation guard", "`^`: a second acceptance is reported as OneOfViolatedError", ""),
+    "~:accepts": ("R09c", "`~` branch does not reject on success", "`~`: rejected when the argument accepts",
+                  "negation would accept values its argument accepts"),
+    "~:accepts-kind": ("R09c", "`~` branch does not reject on success", "`~`: the rejection is a NegateViolatedError", ""),
+    "~:rejects-clean": ("R09c", "`~` branch rejects on failure", "`~`: a failing conversion records no error",
+                        "negation would reject values its argument rejects"),
+    "&:fail": ("R09c", "`&` branch error", "`&`: rejected when an argument rejects", ""),
+    "&:fail-kind": ("R09c", "`&` branch error", "`&`: the rejection is a ParseError (a foreign exception is wrapped)", ""),
+}
+
+
 def r09(run):
+    """R09a / R09b / R09c decided on the decision tables of logical_parse (logic_table.py): every scenario of accepting /
+    rejecting arguments x flag combination x exact-type or foreign input x fail-fast / collecting, interpreted by the
+    checker's own interpreter over modelled objects, compared with the documented meaning of the four combinators"""
+    from . import logic_table as lt
     f = run.repo.func("utype.parser.rule", "LogicalType.logical_parse")
-    fa = analysis(f)
-    subj = f.params[1] if len(f.params) > 1 else "value"
-    converts = [(n, c) for n, c in fa.all_calls() if is_convert_call(fa, n, c)]
-    per: Dict[str, list] = {k: [] for k in COMBS}
-    for n, c in converts:
-        b = branch_of(fa, n)
-        if b is None:
-            raise AnalysisError(f"R09: convert call at {f.loc(c)} is in no combinator branch")
-        per[b].append((n, c))
-    for k in COMBS:
-        run.floor("R09a", f"convert calls in the `{k}` branch", len(per[k]), 1)
-    # R09a
-    for k in ("|", "^", "~"):
-        for n, c in per[k]:
-            arg = convert_value_arg(c)
-            is_subj = isinstance(arg, ast.Name) and arg.id == subj
-            only_param = is_subj and fa.rd.is_param_only(n, subj)
-            run.check("R09a", f, f"`{k}` branch: `{unparse(c)[:60]}` converts the original input", bool(only_param),
-                      construct=f"`{k}` branch converts a threaded value",
-                      message=f"in the `{k}` branch `{unparse(c)}` receives `{unparse(arg)}` whose reaching definitions "
-                              f"include a reassignment inside the branch (the result of an earlier argument's "
-                              f"conversion leaks into the next one)",
-                      necessity="whether a later argument accepts then depends on what an earlier argument turned "
-                                "the input into: (int ^ R)('3.0') and (R ^ int)('3.0') give different verdicts",
-                      node=c)
-    for n, c in per["&"]:
-        arg = convert_value_arg(c)
-        target_ok = n.kind == "stmt" and isinstance(n.ast, ast.Assign) and len(n.ast.targets) == 1 \
-            and isinstance(n.ast.targets[0], ast.Name) and isinstance(arg, ast.Name) and n.ast.targets[0].id == arg.id
-        run.check("R09a", f, "`&` branch threads the running value through its arguments", target_ok,
-                  construct="`&` branch does not thread", message=f"in the `&` branch `{norm_stmt(n.ast)}` does not "
-                  f"assign the conversion result back to the value it converts",
-                  necessity="conjunction must apply each argument to the running value", node=c)
-    # R09b: assignments to the returned variable, and returns, per branch
-    branch_nodes: Dict[str, List[Node]] = {k: [] for k in COMBS}
-    for n in fa.cfg.nodes:
-        if n.kind in ("stmt", "test", "iter", "with") and fa.cfg.is_live(n):
-            b = branch_of(fa, n)
-            if b:
-                branch_nodes[b].append(n)
-
-    def is_convert_result(n: Node, e, depth=0, allow_subject=False) -> bool:
-        if depth > 4:
-            return False
-        os_ = prov(fa).of_expr(n, e)
-        if not os_:
-            return False
-        for o in os_:
-            if o.kind == "call" and any(o.node is c for _, c in converts):
-                continue
-            if allow_subject and o.kind == "param" and o.text == subj:
-                continue      # the unchanged input itself (e.g. the initial value of the result variable)
-            return False
-        return True
-
-    # definitions of the subject made inside a branch that reach a `return <subject>` (a dead store is harmless)
-    ret_subj = [n for n in fa.cfg.nodes if n.kind == "stmt" and isinstance(n.ast, ast.Return) and fa.cfg.is_live(n)
-                and isinstance(n.ast.value, ast.Name) and n.ast.value.id == subj]
-    run.floor("R09b", "returns of the subject in logical_parse", len(ret_subj), 1)
-    for k in ("|", "^", "~"):
-        inside = set(branch_nodes[k])
-        seen = set()
-        for r in ret_subj:
-            for d in fa.rd.defs_of(r, subj):
-                if d in inside and d.kind == "stmt" and isinstance(d.ast, (ast.Assign, ast.AugAssign)) and d not in seen:
-                    seen.add(d)
-                    a = d.ast
-                    if k == "^":
-                        ok = isinstance(a, ast.Assign) and is_convert_result(d, a.value, allow_subject=True) \
-                            and not any(c for nn, c in converts if nn is d)
-                        msg = "is not the recorded result of the single accepting conversion of the original input"
-                    else:
-                        ok = False
-                        msg = ("reassigns the input, and that value reaches `return " + subj + "`: the branch must "
-                               "return the input unchanged / a conversion result of the original input")
-                    run.check("R09b", f, f"`{k}` branch: `{norm_stmt(a)[:60]}` keeps the result provenance", ok,
-                              construct=f"`{k}` branch reassigns the subject",
-                              message=f"in the `{k}` branch `{norm_stmt(a)}` {msg}",
-                              necessity="negation must return the input unchanged; a union / exclusive-or must return "
-                                        "the conversion of the *original* input by an accepting argument", node=a)
-        run.ob("R09b", f, f"`{k}` branch: {len(seen)} definition(s) of the subject reach a return", True)
-    for k in ("|", "^", "~"):
-        for n in branch_nodes[k]:
-            if n.kind != "stmt":
-                continue
-            a = n.ast
-            if isinstance(a, ast.Return):
-                v = a.value
-                facts = {(unparse(x), p) for x, p in fa.facts.atoms_at(n)}
-                # the guard is the bare exact-type comparison, not a disjunction that also admits subclass instances
-                exact = any(p and isinstance(x, ast.Compare) and len(x.ops) == 1 and isinstance(x.ops[0], ast.Eq)
-                            and unparse(x.left) == f"type({subj})" for x, p in fa.facts.atoms_at(n))
-                if isinstance(v, ast.Name) and v.id == subj:
-                    ok = exact and fa.rd.is_param_only(n, subj)
-                    why = "returns the input without the exact-type guard"
-                else:
-                    ok = k != "~" and is_convert_result(n, v)
-                    why = "returns something that is neither the guarded input nor a conversion result"
-                run.check("R09b", f, f"`{k}` branch: `{norm_stmt(a)[:50]}` returns the guarded input or a conversion "
-                                     f"result", ok, construct=f"`{k}` branch early return",
-                          message=f"in the `{k}` branch `{norm_stmt(a)}` {why}",
-                          necessity="a value no argument accepted (or a half-converted value) is handed back", node=a)
-    # exact-type shortcut precedes the conversions of `|` and `^`
-    for k in ("|", "^"):
-        shortcuts = [n for n in branch_nodes[k] if n.kind == "test" and unparse(n.ast).startswith(f"type({subj}) ==")]
-        # the shortcut test sits in a loop over the arguments: that loop (its header) must dominate the conversions
-        heads = []
-        for s_ in shortcuts:
-            loops = [m for m in branch_nodes[k] if m.kind == "iter" and any(x is s_.stmt for x in walk_shallow(m.stmt))]
-            heads += loops or [s_]
-        ok = bool(shortcuts) and all(any(fa.cfg.dominates(h_, n) for h_ in heads) for n, c in per[k])
-        run.check("R09b", f, f"`{k}` branch: the exact-type shortcut dominates every conversion", ok,
-                  construct=f"`{k}` branch exact-type shortcut",
-                  message=f"the `{k}` branch converts before (or without) testing `type({subj}) == con`",
-                  necessity="a value that already has exactly one of the argument types must be returned unchanged")
-    # R09c: `~`: success of the conversion leads to a NegateViolatedError, the handler accepts silently
-    for n, c in per["~"]:
-        succ = fa.cfg.reach_from_succ(n, kinds=(N,))
-        viol = [m for m in succ if m.kind == "stmt" and any(
-            is_handle_error_call(x) and x.args and exc_class_of_ctor(x.args[0]) == "NegateViolatedError"
-            for x in fa.calls_at(m)) and branch_of(fa, m) == "~"]
-        run.check("R09c", f, "`~` branch: a successful conversion is reported as NegateViolatedError", bool(viol)
-                  and all(fa.cfg.dominates(n, m) for m in viol),
-                  construct="`~` branch does not reject on success",
-                  message="in the `~` branch a successful conversion of the argument is not followed by "
-                          "handle_error(NegateViolatedError)",
-                  necessity="negation would accept values its argument accepts", node=c)
-        hs = [s for s, kk in n.succ if kk == E and s.kind == "handler"]
-        for h in hs:
-            body_calls = [x for st in h.handler.body for x in walk_shallow(st) if isinstance(x, ast.Call)]
-            bad = [x for x in body_calls if call_attr(x) in ("handle_error", "collect_tmp_error")]
-            reraises = [st for st in h.handler.body for x in walk_shallow(st) if isinstance(x, ast.Raise)]
-            run.check("R09c", f, "`~` branch: a failing conversion is accepted (no error recorded)", not bad and not reraises,
-                      construct="`~` branch rejects on failure",
-                      message="in the `~` branch the handler of a failed conversion records or raises an error",
-                      necessity="negation would reject values its argument rejects", node=h.handler)
-    # `^`: the conversion loop runs over every argument: no return inside it
-    for n, c in per["^"]:
-        loops = [m for m in branch_nodes["^"] if m.kind == "iter" and any(x is c for x in walk_shallow(m.stmt))]
-        for lp in loops:
-            viol_nodes = [m for m, cc in fa.all_calls() if call_attr(cc) == "handle_error" and cc.args
-                          and "OneOfViolatedError" in unparse(cc.args[0])]
-            rets = []
-            for x in walk_shallow(lp.stmt):
-                if isinstance(x, ast.Return):
-                    rets.append(x)
-                elif isinstance(x, ast.Break):
-                    bn = fa.cfg.stmt_nodes.get(id(x))
-                    # leaving the loop early is fine once the violation has been reported, never on the accepting path
-                    if bn is None or not any(fa.cfg.dominates(v, bn) for v in viol_nodes):
-                        rets.append(x)
-            run.check("R09c", f, "`^` branch: the conversion loop visits every argument (no return / break on the "
-                                 "accepting path)", not rets,
-                      construct="`^` branch returns inside the conversion loop",
-                      message="the `^` branch returns from inside its conversion loop: later arguments are never "
-                              "tested against the input", necessity="an input accepted by two arguments is accepted "
-                              "(with the first one's result) instead of being rejected",
-                      node=rets[0] if rets else None)
-    # `^`: second acceptance -> OneOfViolatedError; the accepting flag is reset/recorded
-    one = [m for m in branch_nodes["^"] if m.kind == "stmt" and any(
-        is_handle_error_call(x) and x.args and exc_class_of_ctor(x.args[0]) == "OneOfViolatedError"
-        for x in fa.calls_at(m))]
-    run.check("R09c", f, "`^` branch: a second accepting argument is reported as OneOfViolatedError", bool(one),
-              construct="`^` branch lacks OneOfViolatedError", message="the `^` branch never reports OneOfViolatedError",
-              necessity="exclusive-or would accept inputs that several arguments accept")
-    for m in one:
-        facts = {(unparse(x), p) for x, p in fa.facts.atoms_at(m)}
-        ok = any(("is None" in t and not p) or ("is not None" in t and p) for t, p in facts)
-        run.check("R09c", f, "the OneOfViolatedError is raised exactly when an earlier argument already accepted", ok,
-                  construct="`^` violation guard", message=f"`{norm_stmt(m.ast)[:60]}` is not guarded by the "
-                  f"'an argument already accepted' flag", node=m.ast)
-    # `|`/`^`: a failed conversion is kept as a temporary error (raised only if nothing accepts)
-    for k in ("|", "^"):
-        for n, c in per[k]:
-            hs = [s for s, kk in n.succ if kk == E and s.kind == "handler"]
-            ok = bool(hs) and all(any(isinstance(x, ast.Call) and call_attr(x) == "collect_tmp_error"
-                                      for st in h.handler.body for x in walk_shallow(st)) for h in hs)
-            run.check("R09c", f, f"`{k}` branch: a failing argument is recorded as temporary error", ok,
-                      construct=f"`{k}` branch handler", message=f"in the `{k}` branch the handler around "
-                      f"`{unparse(c)[:50]}` does not collect_tmp_error",
-                      necessity="if every argument fails nothing would be raised: the raw input is returned", node=c)
-    # `|`: success clears the temporary errors before returning
-    for n in branch_nodes["|"]:
-        if n.kind == "stmt" and isinstance(n.ast, ast.Return) and not (
-                isinstance(n.ast.value, ast.Name) and n.ast.value.id == subj):
-            clears = [m for m in branch_nodes["|"] if m.kind == "stmt" and any(
-                call_attr(x) == "clear_tmp_error" for x in fa.calls_at(m)) and fa.cfg.dominates(m, n)]
-            # the clear must happen after the conversion that produced the value
-            run.check("R09c", f, "`|` branch: temporary errors of earlier arguments are cleared on success", bool(clears),
-                      construct="`|` success without clear_tmp_error",
-                      message=f"`{norm_stmt(n.ast)}` returns a conversion result without clearing temporary errors",
-                      node=n.ast)
+    bad = lt.behaviour(run)
+    run.floor("R09a", "rows of the logical_parse decision tables", run._logic_rows, 250)
+    for clause, (rule, construct, title, nec) in CLAUSES.items():
+        w = bad.get(clause)
+        run.check(rule, f, title + " (decision table)", w is None, construct=construct,
+                  message=f"LogicalType.logical_parse: {title} - but for [{w[0]}] it gives {w[1]}, expected: {w[2]}" if w else "",
+                  necessity=nec or "the combinator no longer means what it says")
+    unknown = [c for c in bad if c not in CLAUSES and c != "|:order"]
+    if unknown:
+        raise AnalysisError(f"R09: unmapped table clause(s) {unknown}")
 
 
 OP_TABLE = {"__and__": "&", "__rand__": "&", "__or__": "|", "__ror__": "|", "__xor__": "^", "__rxor__": "^",
@@ -381,19 +255,15 @@ OPERATOR_METHODS = ("__and__", "__rand__", "__or__", "__ror__", "__xor__", "__rx
 
 
 def r09e(run):
-    """the union always ends with an attempt under exactly the caller's options"""
-    from . import c18
+    """the union always ends with an attempt under exactly the caller's options (read off the stage table)"""
+    from . import logic_table as lt
     f = run.repo.func("utype.parser.rule", "LogicalType.logical_parse")
-    fa = analysis(f)
-    FLAGS = ("no_data_loss", "no_explicit_cast")
-    conv = [(n, c) for n, c in fa.all_calls() if is_convert_call(fa, n, c) and branch_of(fa, n) == "|"]
-    free = [n for n, c in conv if not c18.flag_guards(fa, n, FLAGS)
-            and not any(call_attr(x) == "enter" and kwarg_given(x, "options") is not None
-                        for m in fa.cfg.dominators()[n] if m.kind == "with" for x in fa.calls_at(m))]
-    run.check("R09e", f, "the union's last stage converts with the caller's own options, unconditionally", bool(free),
+    table = lt.stage_table(run)
+    wrong = [(k, [lt.stage_name(x) for x in v]) for k, v in sorted(table.items()) if not v or v[-1] is not None]
+    run.check("R09e", f, "the union's last stage converts with the caller's own options, unconditionally", not wrong,
               construct="no unconditional common stage in the union",
-              message="every conversion attempt of the `|` branch is guarded by the strictness flags or runs under stage "
-                      "options: no attempt uses exactly the caller's options",
+              message="the `|` branch does not end with an attempt under exactly the caller's options: "
+                      + "; ".join(f"(no_data_loss, no_explicit_cast)={k}: stages {v}" for k, v in wrong[:2]),
               necessity="with only one of no_data_loss / no_explicit_cast set the union rejects values one of its "
                         "arguments accepts under the same options: (int | None)('3') under Options(no_data_loss=True)")
 
